@@ -241,6 +241,26 @@ Theorem C08_source_seek_definite_range :
 Proof. exact TI.proofs.IterSrcTie.source_seek_definite_range. Qed.
 Print Assumptions C08_source_seek_definite_range.
 
+(** *** [set_frame_duration] tied to the source as a theorem (T), and the position of the
+    finalized check: [gen/IterSrc.v] also carries [RenderIterator.set_frame_duration] translated
+    statement by statement and, for [seek], [set_frame_duration], [set_padding],
+    [set_render_args], [set_render_size], the position of
+    [if self._closed: raise FinalizedIteratorError] among the method's statements *)
+Theorem C08_source_set_frame_duration :
+  forall RS (s : state RS) d,
+    set_duration RS s d =
+    TI.proofs.IterSrcTie.apply_sfd RS s (TI.gen.IterSrc.src_set_frame_duration (closed s) d).
+Proof. exact TI.proofs.IterSrcTie.set_frame_duration_is_source. Qed.
+Print Assumptions C08_source_set_frame_duration.
+
+(** on a finalized iterator no control method looks at its argument first: the finalized
+    check is statement 0 of each of the five methods *)
+Theorem C08_source_finalized_check_first :
+  (forall p, In p TI.gen.IterSrc.src_finalized_check_position -> snd p = 0%nat)
+  /\ map fst TI.gen.IterSrc.src_finalized_check_position = (0 :: 1 :: 2 :: 3 :: 4 :: nil)%nat.
+Proof. exact (conj TI.proofs.IterSrcTie.finalized_check_first TI.proofs.IterSrcTie.finalized_check_covers_all_methods). Qed.
+Print Assumptions C08_source_finalized_check_first.
+
 (** *** histories in a CHANGING environment (model/IterEnv.v)
 
     An event is [(terminal size in force, operation of the iterator | client write to
